@@ -1,4 +1,5 @@
 import DC.Spec.Embed
+import DC.Proofs.TreeEmbed
 
 /-!
 # C07 — a query renders the same wherever it is embedded  (partial: verified monitor + search)
@@ -14,9 +15,15 @@ FULL STATEMENT (not a theorem; decided by search with the verified monitor, `har
 `∀ q ctx, (embedded (lines (Explain q)) (lines (Explain (ctx q)))).isSome`, `Explain (q) = Explain ((q))`,
 and `Explain q` after any history = `Explain q`.
 
-What IS proved: the monitor the harness uses means exactly "contiguous, uniformly indented block".
-The design's `depth_shift` / `embedding` theorems over a model of the printer are NOT done (no
-`ExplainCore` model); the package-level flags the `flags_*` theorems were about no longer exist in /repo.
+What IS proved: the monitor the harness uses means exactly "contiguous, uniformly indented block"
+(`monitor_iff_partial`, `monitor_exact`), and — second half of this file, section "model level" — the
+design's `depth_shift` / `embedding` theorems for ANY compositional printer (`explain lab`, a printer whose
+line for a node is a function of that node alone): `render_shift`, `subtree_embedded`,
+`explain_depth_shift`, `explain_embedding`, `explain_context_free`, `explain_history_free`, and the converse on
+well-formed texts `embedded_subtree` (what the monitor finds is a subtree, at exactly the reported depth).
+There is still no function-by-function model of `internal/explain` (no `ExplainCore`), so that the real
+printer IS such an `explain lab` is not proved: that is what the search checks.  The package-level flags the
+`flags_*` theorems were about no longer exist in /repo.
 -/
 namespace DC.Props.C07
 open DC DC.Spec.Tree DC.Spec.Embed
@@ -37,5 +44,128 @@ theorem monitor_exact (inner outer : List Line) (d : Nat) :
 
 example : embedded [[65], [32, 66]] [[88], [32, 32, 65], [32, 32, 32, 66], [32, 67]] = some 2 := by decide
 example : embedded [[65], [32, 66]] [[88], [32, 32, 65], [32, 32, 32, 32, 66]] = none := by decide
+
+/-! ## model level: a compositional printer
+
+MODELLING ASSUMPTION (this, and nothing else, is what separates the theorems below from the real printer).
+`explain lab a d := render (toTree lab a) d`: the text of a node is its own line — `lab` of the node's payload,
+a function of the node ALONE — followed by the texts of its children one level deeper.  A printer is
+compositional exactly when its output for a node is such a function of the node alone: no argument for the
+enclosing statement, no printer state.  Under that assumption `explain_context_free` / `explain_history_free`
+hold by definition (the context and the history are simply not arguments of `explain`), which is the point:
+the property can only fail where the real printer is NOT of this shape, namely
+* printer state that survives a call or is shared between calls — excluded for the code as it is now by the
+  regenerated obligation `DC.Props.C10.no_shared_writes` (re-checked on every build);
+* per-context special cases of the real printer (a FORMAT / SETTINGS / INTO OUTFILE tail of an inner SELECT
+  is printed as a child of the ENCLOSING statement — exactly the queries the property text excludes; any
+  other place where `internal/explain` looks at the parent to decide what a child prints) — these are what
+  the search (`harness/p_c07.go`, with the verified monitor above) checks.
+"Wrapping the whole query in parentheses at statement level changes nothing" has no content at this level:
+parentheses are not nodes of the syntax tree, so `q` and `(q)` are the same `Ast`; that the real parser
+produces the same AST for both is again checked by the search.
+-/
+
+open DC.Proofs.TreeEmbed
+
+/-- **depth_shift.** The depth at which a tree is rendered only shifts the indentation: rendering `k` levels
+deeper prefixes every line with `k` spaces. -/
+theorem render_shift (t : Tree) (d k : Nat) : render t (d + k) = (render t d).map (indent k) :=
+  DC.Proofs.TreeEmbed.render_shift t d k
+
+theorem renderList_shift (ts : List Tree) (d k : Nat) :
+    renderList ts (d + k) = (renderList ts d).map (indent k) :=
+  DC.Proofs.TreeEmbed.renderList_shift ts d k
+
+/-- a rendering is never empty (so the `inner = [] → d = 0` corner of the monitor never applies) -/
+theorem render_ne_nil (t : Tree) (d : Nat) : render t d ≠ [] :=
+  DC.Proofs.TreeEmbed.render_ne_nil t d
+
+/-- **embedding (trees).** `Sub s t k`: `s` is `t` (`k = 0`) or occurs at relative depth `k'` inside the `i`-th child
+of `t` (`k = k' + 1`).  The text of a subtree is a contiguous block of the text of the tree, every line prefixed
+by `k` spaces. -/
+theorem subtree_embedded {s t : Tree} {k : Nat} (h : Sub s t k) :
+    ∃ pre post, render t 0 = pre ++ (render s 0).map (indent k) ++ post :=
+  DC.Proofs.TreeEmbed.subtree_embedded h
+
+/-- … hence the C07 monitor finds it. -/
+theorem subtree_embedded_isSome {s t : Tree} {k : Nat} (h : Sub s t k) :
+    (embedded (render s 0) (render t 0)).isSome = true :=
+  DC.Proofs.TreeEmbed.subtree_embedded_isSome h
+
+variable {α : Type}
+
+/-- **depth_shift (printer).** -/
+theorem explain_depth_shift (lab : α → Bytes × Bool) (a : Ast α) (d k : Nat) :
+    explain lab a (d + k) = (explain lab a d).map (indent k) :=
+  DC.Proofs.TreeEmbed.explain_depth_shift lab a d k
+
+/-- **embedding (printer).** The text of a query `s` occurs, merely indented, in the text of every
+statement `a` that contains `s` as a subtree (at any depth `k`, in any child position). -/
+theorem explain_embedding (lab : α → Bytes × Bool) {s a : Ast α} {k : Nat} (h : SubAst s a k) :
+    (embedded (explain lab s 0) (explain lab a 0)).isSome = true :=
+  DC.Proofs.TreeEmbed.explain_embedding lab h
+
+/-- **context-free.** `explain lab s d` is a function of `lab`, `s`, `d` only (by definition — the modelling
+assumption above); consequently the SAME block `explain lab s 0` sits in the texts of any two statements
+that contain `s`, whatever surrounds it there. -/
+theorem explain_context_free (lab : α → Bytes × Bool) {s a₁ a₂ : Ast α} {k₁ k₂ : Nat}
+    (h₁ : SubAst s a₁ k₁) (h₂ : SubAst s a₂ k₂) :
+    ∃ pre₁ post₁ pre₂ post₂,
+      explain lab a₁ 0 = pre₁ ++ (explain lab s 0).map (indent k₁) ++ post₁ ∧
+      explain lab a₂ 0 = pre₂ ++ (explain lab s 0).map (indent k₂) ++ post₂ :=
+  DC.Proofs.TreeEmbed.explain_context_free lab h₁ h₂
+
+/-- **history-free.** After any sequence of earlier calls the text of a call is the text of that call alone
+(again by definition: `explainSeq` threads no state). -/
+theorem explain_history_free (lab : α → Bytes × Bool) (hist : List (Ast α × Nat)) (s : Ast α) (d : Nat) :
+    (explainSeq lab (hist ++ [(s, d)])).getLast? = some (explain lab s d) :=
+  DC.Proofs.TreeEmbed.explain_history_free lab hist s d
+
+/-- **Converse (trees).** For good trees, "occurs as a block indented by `d`" and "is a subtree `d` levels down"
+are the same thing. -/
+theorem sub_iff_block {s t : Tree} (hs : s.good = true) (ht : t.good = true) (d : Nat) :
+    Sub s t d ↔ ∃ pre post, render t 0 = pre ++ (render s 0).map (indent d) ++ post :=
+  DC.Proofs.TreeEmbed.Sub_iff_block hs ht d
+
+/-- **Converse (texts).** If both texts pass the C04 monitor and the C07 monitor answers `some d`, the
+(unique) tree of `inner` is a subtree of the (unique) tree of `outer`, exactly `d` levels below its root: a hit
+of the monitor is never an accidental alignment of lines across subtree boundaries.
+(`check inner = true` already gives `inner ≠ []`.) -/
+theorem embedded_subtree {inner outer : List Line} {d : Nat}
+    (hi : check inner = true) (ho : check outer = true) (he : embedded inner outer = some d) :
+    ∃ ti to, render ti 0 = inner ∧ render to 0 = outer ∧ ti.good = true ∧ to.good = true ∧ Sub ti to d :=
+  DC.Proofs.TreeEmbed.embedded_subtree hi ho he
+
+/-! ### non-vacuity -/
+
+/-- `S (children 1)` / ` L` -/
+def exS : Tree := .node [83] true [.node [76] false []]
+/-- `Q (children 2)` / ` A` / ` S (children 1)` / `  L` -/
+def exQ : Tree := .node [81] true [.node [65] false [], exS]
+
+/-- the same two as syntax trees with payload `Nat`, and a second statement `I` embedding `S` two levels down -/
+def exLab (n : Nat) : Bytes × Bool := ([n.toUInt8], n % 2 == 1)
+def aS : Ast Nat := .node 83 [.node 76 []]
+def aQ : Ast Nat := .node 81 [.node 66 [], aS]
+def aI : Ast Nat := .node 73 [.node 87 [aS], .node 66 []]
+
+example : render exS 2 = [[32, 32] ++ [83] ++ suffix [49], [32, 32, 32, 76]] := by decide +kernel
+example : render exS (0 + 2) = (render exS 0).map (indent 2) := by decide +kernel
+example : render exS 0 ≠ [] := by decide +kernel
+example : Sub exS exQ 1 := Sub.child _ _ _ 1 rfl (Sub.refl _)
+example : embedded (render exS 0) (render exQ 0) = some 1 := by decide +kernel
+example : exS.good = true ∧ exQ.good = true := by decide
+example : check (render exS 0) = true ∧ check (render exQ 0) = true := by decide +kernel
+/-- without `check inner` the converse is false: ` A` / ` S (children 1)` is a block of `exQ` but no subtree -/
+example : embedded [[32, 65], [32, 83] ++ suffix [49]] (render exQ 0) = some 0 ∧
+    check [[32, 65], [32, 83] ++ suffix [49]] = false := by decide +kernel
+example : toTree exLab aS = exS := rfl
+example : SubAst aS aQ 1 := SubAst.child _ _ 1 rfl (SubAst.refl _)
+example : SubAst aS aI 2 := SubAst.child _ _ 0 rfl (SubAst.child _ _ 0 rfl (SubAst.refl _))
+example : explain exLab aS (1 + 2) = (explain exLab aS 1).map (indent 2) := by decide +kernel
+example : embedded (explain exLab aS 0) (explain exLab aQ 0) = some 1 := by decide +kernel
+example : embedded (explain exLab aS 0) (explain exLab aI 0) = some 2 := by decide +kernel
+example : explainSeq exLab [(aQ, 0), (aI, 3), (aS, 0)] =
+    [explain exLab aQ 0, explain exLab aI 3, explain exLab aS 0] := by decide +kernel
 
 end DC.Props.C07
